@@ -49,6 +49,18 @@ def gen_cases(tier, seed):
         h = bytearray(base); h[2:4] = struct.pack("<H", itl)
         cases.append("rtap " + hx(bytes(h)))
         cases.append("rtap " + hx(bytes(h) + bytes(300)))
+    # headers whose length field is right but at / beyond what the one-octet length of the result can hold:
+    # every length 248..290 and some larger ones, complete in the buffer (zero padding or vendor data after the fields)
+    for itl in list(range(248, 291)) + [511, 512, 519, 520, 767, 768, 776, 1000, 4096, 65535]:
+        h = bytearray(base); h[2:4] = struct.pack("<H", itl)
+        full = bytes(h) + bytes(itl - len(h))
+        cases.append("rtap " + hx(full))
+        cases.append("rtap " + hx(full + bytes([0x80, 0]) + bytes(22)))
+        cases.append("classify 1 " + hx(full + bytes([0x80, 0]) + bytes(22)))
+        if itl < 4096:
+            v = rtgen.rtap_vendor(rng, itl) if hasattr(rtgen, "rtap_vendor") else None
+            if v:
+                cases.append("rtap " + hx(v))
     for v in (1, 2, 255):
         h = bytearray(base); h[0] = v
         cases.append("rtap " + hx(bytes(h)))
